@@ -2,6 +2,7 @@ import Receptor.Drive.Util
 import Receptor.Drive.DER
 import Receptor.Drive.Wire
 import Receptor.Drive.Pkt
+import Receptor.Drive.Fw
 /-! Line-protocol driver: one JSON request per line `{"e":engine,"op":op,"a":args,"r":impl-observation}`,
 one JSON reply per line `{"m":model-result,"prop":true|false|null,"why":…}` or `{"bad-op":…}`. -/
 open Lean Receptor.Drive
@@ -12,6 +13,7 @@ def dispatch (e op : String) (a r : Json) : Except String Reply :=
   | "wire" => Receptor.Drive.Wire.handle op a r
   | "framer" => Receptor.Drive.Framer.handle op a r
   | "pkt" => Receptor.Drive.Pkt.handle op a r
+  | "fw" => Receptor.Drive.Fw.handle op a r
   | _ => throw s!"bad-op unknown engine {e}"
 
 def handleLine (line : String) : String :=
